@@ -130,6 +130,7 @@ class SimDisk:
         self.temp_seq = 0
         self.mark_count = 0
         self.die_at = None    # raise SoftDeath at this mark (1-based)
+        self.renames = []     # (src, dst, log position of an open src)
 
     def exists(self, name):
         return name in self.files or name in self.open_files
@@ -271,6 +272,29 @@ class OsShim(types.ModuleType):
         disk.removed.append(name)
 
     unlink = remove
+
+    def rename(self, src, dst):
+        """os.rename / os.replace on the simulated disk (atomic)."""
+        disk = self._disk
+        disk.sync_closed()
+        src, dst = str(src), str(dst)
+        if not disk.exists(src):
+            raise FileNotFoundError(2, "No such file or directory", src)
+        disk.files.pop(dst, None)
+        disk.open_files.pop(dst, None)
+        pos = None
+        if src in disk.open_files:
+            pos = len(disk.open_files[src][2])
+            disk.open_files[dst] = disk.open_files.pop(src)
+        disk.renames.append((src, dst, pos))
+        if src in disk.files:
+            disk.files[dst] = disk.files.pop(src)
+        if src in disk.logs:
+            disk.logs[dst] = disk.logs.pop(src)
+        disk.marks = [(dst if n == src else n, lab, pos)
+                      for (n, lab, pos) in disk.marks]
+
+    replace = rename
 
 
 class TempfileShim(types.ModuleType):
